@@ -161,6 +161,8 @@ type SVal struct {
 	Fn   *ssa.Function
 	Bind []*SVal // closure bindings
 	LV   bool    // spec evaluation: denotes the (unread) contents of Loc
+	// interface values made from a pointer remember where it points (for `modifies pointee(x)`)
+	Pointee *Loc
 }
 
 func leaf(t types.Type, term string) *SVal { return &SVal{T: t, Term: term} }
